@@ -222,30 +222,79 @@ def build(ctx):
     def wrap_replay(m):
         from chmpy.crystal import Crystal, UnitCell, SpaceGroup, AsymmetricUnit
         from chmpy import Element
-        xv = float(Fraction(m.get("w", "-83/10")))
-        c = Crystal(UnitCell.from_lengths_and_angles([5, 6, 7], [1.4, 1.5, 1.6]), SpaceGroup(2), AsymmetricUnit([Element["C"]], np.array([[xv, 0.2, 0.1]])))
+        m = m or {}
+        site = [float(Fraction(str(m.get(f"w{i}", d_)))) for i, d_ in enumerate(("-83/10", "1/5", "1/10"))]
+        xv = site[0]
+        c = Crystal(UnitCell.from_lengths_and_angles([5, 6, 7], [1.4, 1.5, 1.6]), SpaceGroup(1), AsymmetricUnit([Element["C"]], np.array([site])))
         fp = c.unit_cell_atoms()["frac_pos"]
         bad = bool(fp.min() < 0 or fp.max() >= 1)
-        return {"native_inputs": {"space_group": 2, "site": [xv, 0.2, 0.1]}, "reproduced": bad, "observed": {"frac_pos": fp.tolist()}}
+        return {"native_inputs": {"space_group": 1, "site": site}, "reproduced": bad, "observed": {"frac_pos": fp.tolist()}}
 
-    def ob_wrap():
-        stmts = [s for s in f_uca.node.body if isinstance(s, ast.Assign) and len(s.targets) == 1 and isinstance(s.targets[0], ast.Name) and s.targets[0].id == "translated"]
-        if len(stmts) != 1:
-            raise Unsupported("the statement assigning `translated` was not found in unit_cell_atoms")
-        w = z3.Real("w")
-        I.pc, I.decisions, I.dpos, I.new_alts, I.cur_safety, I.fresh_count, I.depth, I.no_fork = [], [], 0, [], [], 0, 1, 0
-        fr = Frame(crmod, {"uc_pos": farr([[w]])}, None, fname=f_uca.qualname, fnode=f_uca.node)
-        I.exec_stmt(stmts[0], fr)
-        out = fr.env["translated"].data[0, 0]
-        k = z3.Int("shift")
-        ctx.prove("crystal.Crystal.unit_cell_atoms/ensures/wrap.range", list(I.pc), z3.And(out >= 0, out < 1),
-                  clause="for every real fractional coordinate the wrapped value lies in [0, 1)", replay=wrap_replay, fn=f_uca)
-        ctx.prove("crystal.Crystal.unit_cell_atoms/ensures/wrap.lattice_shift", list(I.pc), out - w == z3.ToReal(z3.ToInt(out - w)),
-                  clause="the wrapped value differs from the coordinate by an integer (same point modulo the lattice)", replay=wrap_replay, fn=f_uca)
-    ctx.attempt("crystal.Crystal.unit_cell_atoms/ensures/wrap.range", ob_wrap, replay=wrap_replay, fn=f_uca)
+    wrap_instance(ctx, crmod, wrap_replay)
 
     merge_instance(ctx, crmod)
     bounded(ctx)
+
+
+def wrap_instance(ctx, crmod, wrap_replay):
+    """unit_cell_atoms on a symbolic instance with ONE site and ONE operation whose image is an arbitrary real point (no hypothesis on its range):
+    the returned fractional position lies in [0, 1) and differs from the image by a lattice vector.  The whole function body is executed, so the
+    obligation does not depend on how the wrap is spelled or what its locals are called."""
+    f_uca = ctx.fn(CR, "Crystal.unit_cell_atoms")
+    W = reals("w", 3)
+    tol = z3.Real("tol")
+
+    class _Tree:
+        pass
+
+    class _Dok:
+        pass
+
+    def kdtree_model(I2, pts, *a, **k):
+        t = _Tree()
+        t.pts = pts
+        return t
+
+    def sdm(I2, tree, other, max_distance=None, **k):
+        dk = _Dok()
+        dk.pairs = []                      # a single point: no off-diagonal pair
+        return dk
+    models = {"scipy.spatial.cKDTree": _MF("scipy.cKDTree", kdtree_model), "_Tree.sparse_distance_matrix": _MF("scipy.cKDTree.sparse_distance_matrix(single point)", sdm),
+              "_Dok.items": _MF("dok.items row-major", lambda I2, d: list(d.pairs))}
+    contracts = {SG + ".SpaceGroup.apply_all_symops": Contract(result=lambda I2, self_, coords: (iarr([16484]), farr([W])))}
+    I = ctx.interp(contracts=contracts, models=models)
+    for k_, v_ in models.items():
+        I.models[k_] = v_
+    CRcls = I.class_of(crmod, "Crystal")
+
+    def thunk(I2, a, kw):
+        asym = shell(I2, "chmpy.crystal.asymmetric_unit", "AsymmetricUnit", positions=farr(real_matrix("s", 1, 3)), atomic_numbers=iarr([z3.Int("z0")]),
+                     labels=NDArr(np.array(["A1"], dtype=object), "o"), properties={"occupation": farr([z3.Real("occ0")])}, elements=[None])
+        sg = shell(I2, SG, "SpaceGroup", symmetry_operations=[1])
+        uc = shell(I2, "chmpy.crystal.unit_cell", "UnitCell", direct=farr(real_matrix("D", 3, 3)), inverse=farr(real_matrix("V", 3, 3)))
+        cr = Obj(CRcls, {"asymmetric_unit": asym, "space_group": sg, "unit_cell": uc, "properties": {}})
+        return I2.call(I2.getattr(cr, "unit_cell_atoms"), [], {"tolerance": tol})
+
+    def ob():
+        res = I.explore(thunk, pre=[tol > 0])
+        rets = [r for r in res if r.kind == "return"]
+        if not rets:
+            return ctx.undecided("crystal.Crystal.unit_cell_atoms/ensures/wrap.range", "no returning path on the one-site instance")
+        for k, r in enumerate(res):
+            sfx = "" if len(res) == 1 else f"/path{k}"
+            if r.kind != "return":
+                ctx.prove(f"crystal.Crystal.unit_cell_atoms/ensures/wrap.range{sfx}", r.pc, z3.BoolVal(False), clause="returns normally", fn=f_uca, replay=wrap_replay)
+                continue
+            fp = r.value["frac_pos"]
+            if tuple(fp.shape) != (1, 3):
+                ctx.prove(f"crystal.Crystal.unit_cell_atoms/ensures/wrap.range{sfx}", r.pc, z3.BoolVal(False), clause="one site, one operation: one returned row", fn=f_uca, replay=wrap_replay)
+                continue
+            out = [z(fp.data[0, c]) for c in range(3)]
+            ctx.prove(f"crystal.Crystal.unit_cell_atoms/ensures/wrap.range{sfx}", r.pc, conj([z3.And(o >= 0, o < 1) for o in out]),
+                      clause="for every real fractional coordinate the returned value lies in [0, 1)", replay=wrap_replay, fn=f_uca)
+            ctx.prove(f"crystal.Crystal.unit_cell_atoms/ensures/wrap.lattice_shift{sfx}", r.pc, conj([o - w_ == z3.ToReal(z3.ToInt(o - w_)) for o, w_ in zip(out, W)]),
+                      clause="the returned value differs from the image coordinate by an integer (same point modulo the lattice)", replay=wrap_replay, fn=f_uca)
+    ctx.attempt("crystal.Crystal.unit_cell_atoms/ensures/wrap.range", ob, replay=wrap_replay, fn=f_uca)
 
 
 def merge_instance(ctx, crmod):
